@@ -171,6 +171,39 @@ CHECKS["C16"] = dict(
          "endpoint itself is exercised by C20's binary runs only indirectly; heartbeat silence is exercised in the thorough tier only.",
     design="§6 C16")
 
+CHECKS["C03"] = dict(
+    category="exploration",
+    technique="TLA+ Wire.tla (Transparent / ReplyTransparent) model-checked with TLC; exported REQ/RESP tables replayed end-to-end by vdrv-wire; identity oracle",
+    text="every TLC-enumerated request shape (opcode x statement class x max-version x version x flag subsets x none/lz4/snappy x compressed) and response "
+         "shape (every RESULT kind, every error code, flag subsets, compressed or not) is sent through the real proxy with seeded contents up to 8 MiB; "
+         "header version/flags/opcode/length and wire body are compared byte by byte in both directions",
+    note="two-node fake backend with reference codecs; responses absorbed by the retry policy are not observable (is_bootstrapping never; "
+         "server/overloaded/truncate only for non-idempotent requests); contents random below the abstract row; no v5 segment framing",
+    design="§6 C03")
+CHECKS["C12"] = dict(
+    category="exploration",
+    technique="TLA+ Wire.tla (OverrideOnlyConsistency, OverrideTarget, SelectUntouched, NoListNoChange, IdempotentOverride) model-checked with TLC; DEC/REQ "
+              "tables replayed against the in-process proxy configured through VerifSetUnsupportedWriteConsistencies",
+    text="every decision row (unsupported list in {empty, singletons, pairs, all} x override x 11 consistencies x statement class, incl. prepared SELECT / "
+         "write / unknown id) of every enumerated configuration is run end to end with round-robin frame shapes; the backend's reference decode is compared "
+         "field by field with what was sent, only the consistency may differ and only where the TLC table says so; well-framedness and decompression are checked",
+    note="verdict left open for EXECUTE of ids unknown to the proxy; compression flag of re-encoded frames not asserted; quick tier enumerates adjacent pairs "
+         "and two overrides per list; single-node backend. Known finding: SELECT with a leading comment.",
+    design="§6 C12")
+CHECKS["C17"] = dict(
+    category="exploration",
+    technique="TLA+ spec Hostile.tla (classes of hostile client/backend behaviour, allowed offender outcomes, ProcessAlive) enumerated by TLC; sequences "
+              "replayed against the real proxy binary with liveness and canary checks",
+    text="every abstract class of hostile client input (truncated/oversized/zero declared lengths, garbage, response direction, wrong/unknown opcodes and "
+         "versions, compression flag abuse, malformed string/map/batch lengths, hostile USE / PREPARE keyspace / query text / REGISTER / STARTUP / "
+         "AUTH_RESPONSE contents) and hostile backend reply (unknown stream, wrong opcode, short error, garbage, unsolicited event, truncated result, "
+         "bogus UNPREPARED, compression flag) is sent - every listed variant at least once, in sequences covering all classes (thorough: all ordered "
+         "pairs) - to the real binary under several --max-protocol-version settings; the process stays alive, the offender sees an allowed outcome, and a "
+         "canary client gets a locally answered and a forwarded query right after every event",
+    note="abstract classes with listed variants and seeded contents, not coverage-guided fuzzing (DESIGN §7); declared lengths up to 15 MiB; canary retries "
+         "for 8 s because a backend connection torn down by garbage returns only after the reconnect delay.",
+    design="§6 C17, §7")
+
 NOT_YET = "check not built yet in this session (planned, see DESIGN.md §6)"
 
 
